@@ -48,5 +48,14 @@ for c in checks:
     lines = [l for l in r.stdout.strip().split("\n") if l]
     meta["checks"][c] = {"exit": lines[-1] if lines else "?", "output": lines[:-1][:3]}
     meta["ran"].append("tools/mutant.sh seeded/%s/patch.diff %s -> %s" % (name, c, lines[-1] if lines else "?"))
+old_meta = os.path.join(out, "meta.json")
+if os.path.exists(old_meta):
+    try:
+        prev = json.load(open(old_meta))
+        for k in ("needs", "history"):
+            if k in prev and k not in meta:
+                meta[k] = prev[k]
+    except ValueError:
+        pass
 json.dump(meta, open(os.path.join(out, "meta.json"), "w"), indent=1)
 print(json.dumps(meta, indent=1))
